@@ -1002,7 +1002,8 @@ func (env *SpecEnv) havocLvalue(post *State, m Expr) {
 			if v.T != nil {
 				switch t := v.T.Underlying().(type) {
 				case *types.Slice:
-					env.havocArray(post, app(SRef, "sarr", v.V.(Sc).T), t.Elem())
+					sl := v.V.(Sc).T
+					env.havocArrayRange(post, app(SRef, "sarr", sl), t.Elem(), ex.soff(sl), ex.iadd(ex.soff(sl), ex.slen(sl)))
 					return
 				case *types.Pointer:
 					if at, ok := t.Elem().Underlying().(*types.Array); ok {
@@ -1070,6 +1071,11 @@ func (env *SpecEnv) havocField(post *State, ref Term, f *types.Var) {
 }
 
 func (env *SpecEnv) havocArray(post *State, base Term, et types.Type) {
+	env.havocArrayRange(post, base, et, Term{}, Term{})
+}
+
+// havocArrayRange havocs elements [lo, hi) of the array object (all of it when lo is empty).
+func (env *SpecEnv) havocArrayRange(post *State, base Term, et types.Type, lo, hi Term) {
 	ex := env.ex
 	es, ok := ex.cx.sortOf(et)
 	if !ok {
@@ -1097,6 +1103,13 @@ func (env *SpecEnv) havocArray(post *State, base Term, et types.Type) {
 	if es == SInt && isInteger(et) {
 		lo, hi := typeRange(et)
 		ex.cx.assume(Term{fmt.Sprintf("(forall ((i!r Int)) (! (and (<= %s (select %s i!r)) (<= (select %s i!r) %s)) :pattern ((select %s i!r))))", bigLit(lo).S, fresh.S, fresh.S, bigLit(hi).S, fresh.S), SBool})
+	}
+	if lo.S != "" {
+		is := ex.cx.intS()
+		q := Term{"q!r", is}
+		outside := or(ex.ilt(q, lo), ex.ile(hi, q))
+		oldArr := ex.cx.name("oldarr", sel(h, base))
+		ex.cx.assume(Term{fmt.Sprintf("(forall ((q!r %s)) (! (=> %s (= (select %s q!r) (select %s q!r))) :pattern ((select %s q!r))))", is, outside.S, fresh.S, oldArr.S, fresh.S), SBool})
 	}
 	ex.setHeap(post, name, ex.cx.name("h", store(h, base, fresh)))
 }
